@@ -361,7 +361,8 @@ fn c07(cli: &Cli) {
     }
     run.note("facts", json!(facts));
     run.note("wasm_blob", json!({"bytes": FRESH_WASM.len(), "embedded_blob_differs_from_fresh_build": fresh_differs, "used": if fresh_differs { "fresh build, registered as uploaded bytecode for the STF version" } else { "embedded WASM_BYTECODE (identical to the fresh build)" }}));
-    run.note("programs", json!({"transaction templates (scripts / contract calls / create / blob / predicates)": u.templates.len()}));
+    run.note("programs", json!(u.templates.len()));
+    run.note("programs_are", json!("transaction templates (scripts / contract calls / create / blob / predicates)"));
     run.assume("native = Executor::native, wasm = Executor::wasm with the WASM_BYTECODE built by the repository's own build.rs from the tree under test; both run on the same parent state and relayer mock");
     run.assume("compared byte-for-byte via Debug renderings: produced block, skipped list, statuses, events, sorted storage changes, validation results, dry-run results, and error values of rejections");
     run.finish();
